@@ -907,3 +907,49 @@ def rule_L8c(ctx):
     dfl = {f[0]: (norm(f[2]) if f[2] is not None else None) for f in ctx.prog.dataclass_fields(atc)}
     ok = dfl.get("sample_rate") == "44100" and dfl.get("bytes_per_sample") == "2" and dfl.get("num_channels") == "2"
     ctx.ob("L8c", atc, "AudioTrack defaults: 44100 Hz, 2 bytes, 2 channels", ok, f"{dfl}", inst="AudioTrack-defaults")
+
+
+# ------------------------------------------------------------------------ L9
+def rule_L9(ctx):
+    """the AKAI file table is scanned over the whole directory stream: the number of entries looked at is the stream's own
+    length divided by the entry size (a directory may span several sectors; 341 entries fit in one)"""
+    fn = ctx.fn(AK + "file_entry.py", "FileEntriesAdapter._parse", "L9")
+    st = fn.args.args[1].arg
+    loops = [f for f in own_nodes(fn) if isinstance(f, (ast.For, ast.While)) and any(isinstance(c, ast.Call) and norm(c.func).endswith("parse_stream") for c in ast.walk(f))]
+    if len(loops) != 1:
+        raise AnalysisError("L9", where(fn), f"file table loop not found ({len(loops)} candidates)")
+    lp_ = loops[0]
+    B = (f"floordiv({st}.tell(),self.subcon.sizeof())", f"floordiv({st}.tell(),(self.subcon).sizeof())")
+    ok, det, n = True, "", 0
+    for p in run_paths(ctx, fn, rule="L9", limit=6000):
+        heads = [s_ for s_ in p.steps if s_.kind in ("for", "test") and s_.ast is lp_]
+        if not heads:
+            continue
+        n += 1
+        ev_h = evaluator(ctx, fn, heads[0].env)
+        if isinstance(lp_, ast.For):
+            it = ev_h.ev(lp_.iter).key()
+            good_it = it in tuple(f"range({b_})" for b_ in B)
+        else:
+            # while counter < B and ...: counter starts at 0 and is advanced by one per entry
+            from ..core.terms import cmp_struct as _cs
+            from .termination import guard_atoms as _ga
+            it, good_it = norm(lp_.test), False
+            for a_ in _ga(lp_.test):
+                if isinstance(a_, ast.Compare) and len(a_.ops) == 1 and isinstance(a_.ops[0], ast.Lt) and isinstance(a_.left, ast.Name) and ev_h.ev(a_.comparators[0]).key() in B:
+                    cn_ = a_.left.id
+                    init = [x for x in fn.body if isinstance(x, ast.Assign) and norm(x.targets[0]) == cn_]
+                    steps_ = [x for x in ast.walk(lp_) if isinstance(x, ast.AugAssign) and norm(x.target) == cn_]
+                    good_it = len(init) == 1 and norm(init[0].value) == "0" and len(steps_) == 1 and isinstance(steps_[0].op, ast.Add) and norm(steps_[0].value) == "1" \
+                        and steps_[0] in lp_.body
+        seq = []
+        for c, e, s2 in calls_on(p):
+            k = evaluator(ctx, fn, e).ev(c).key()
+            if k in (f"{st}.seek(0,SEEK_END)", f"{st}.seek(0,2)", f"{st}.tell()", f"{st}.seek(0,SEEK_SET)", f"{st}.seek(0,0)", f"{st}.seek(0)"):
+                seq.append(k)
+            if any(c is x for x in ast.walk(lp_)):
+                break
+        good_seq = len(seq) >= 3 and seq[0] in (f"{st}.seek(0,SEEK_END)", f"{st}.seek(0,2)") and seq[1] == f"{st}.tell()" and seq[2] in (f"{st}.seek(0,SEEK_SET)", f"{st}.seek(0,0)", f"{st}.seek(0)")
+        if not (good_it and good_seq):
+            ok, det = False, f"the table loop runs over `{it}` after {seq[:3]}"
+    ctx.ob("L9", loops[0], "the file table is scanned up to the length of the directory stream (stream end // entry size), from its start", ok and n >= 1, det, inst="table-extent")
